@@ -282,6 +282,9 @@ def served_case():
         # how the limiter sits in front of the handlers: in a MiddlewareChain (as start_server builds it), handed to the
         # protocol directly (it has the same process_request interface), or in a chain behind the PyOpenSSL TLS layer
         "wiring": st.sampled_from(["chain", "chain", "bare", "pyopenssl", "start_server"]),
+        # which three peers: unrelated ones; link-local peers that differ in the zone only (the same address on two
+        # links is two peers); neighbours inside one /64
+        "addrset": st.sampled_from([0, 0, 1, 2]),
     })
 
 
@@ -366,7 +369,9 @@ def run_served(case: dict):
     from vlib.faketransport import FakeTransport
 
     cap, rate = case["capacity"], Fraction(case["rate"])
-    ADDR = {"a": "192.0.2.1", "b": "2001:db8::2", "c": "2001:db8::3"}
+    ADDR = [{"a": "192.0.2.1", "b": "2001:db8::2", "c": "2001:db8::3"},
+            {"a": "fe80::1%eth0", "b": "fe80::1%eth1", "c": "fe80::2%eth0"},
+            {"a": "2001:db8:1:2::a", "b": "2001:db8:1:2::b", "c": "2001:db8:1:3::a"}][case.get("addrset", 0)]
     if case.get("wiring") == "start_server":
         return _served_by_start_server(case, ADDR)
 
